@@ -155,15 +155,15 @@ def run_query(src, spec, qarg, members=None):
         src.filters = FilterSet()
         if comp:
             src.filters.add(comp)
-        out = render(lambda: src.query(qarg))
+        top = src
     elif spec.get("wrap") or comp:
-        cds = CompositeDataSource()
-        cds.add_data_sources([src])
+        top = CompositeDataSource()
+        top.add_data_sources([src])
         if comp:
-            cds.filters.add(comp)
-        out = render(lambda: cds.query(qarg))
+            top.filters.add(comp)
     else:
-        out = render(lambda: src.query(qarg))
+        top = src
+    out = render((lambda: top.query(query=qarg)) if spec.get("kw") else (lambda: top.query(qarg)))
     for t in targets:
         t.filters = FilterSet()
     return out
@@ -377,10 +377,26 @@ def handle(case):
                         "cmo": run_get(mo, g, composite=True), "cfs": run_get(fs, g, composite=True),
                         "c2": run_get(c2, g, members=[ma, fb])} for g in case.get("gets", [])]
         res["filter_ops"] = list(stix2.datastore.filters.FILTER_OPS)
+        # the same questions once more, after everything else has been asked (gets are asked below, the growing
+        # stores above): a source must give the same answer
+        again = []
+        for spec in case["queries"]:
+            try:
+                qarg, q = make_qarg(spec)
+            except Exception as e:  # noqa: BLE001
+                line = "CONSTRUCT " + type(e).__name__
+                again.append({"mo": line, "fs": line})
+                continue
+            again.append({"mo": run_query(mo, spec, qarg), "fs": run_query(fs, spec, qarg)})
+        res["queries_again"] = again
         return res
     finally:
         shutil.rmtree(tmp, ignore_errors=True)
 
+
+if os.environ.get("TZ"):
+    import time
+    time.tzset()
 
 for line in sys.stdin:
     line = line.strip()
